@@ -4,11 +4,8 @@
 From Coq Require Import Arith ZArith QArith Qabs List Bool Lia.
 Import ListNotations.
 From SCK Require Import FlowModel BipModel BvN2.
+From SCK Require Import BvNSnap.
 From SCKGen Require Import PosGraphGen PosGraphGenProof BvnGen.
-
-Definition thr_bvn : Q := 4835703278458517 # 4835703278458516698824704.
-(* no entry strictly between 0 and the threshold in absolute value *)
-Definition nosmall_b (X : mat) : bool := forallb (forallb (fun x : Q => Qeq_bool x 0 || Qle_bool thr_bvn (Qabs x))) X.
 
 Lemma gen_bvn_done_eq X : nosmall_b X = true -> gen_bvn_done X = forallb (forallb (fun x => Qeq_bool x 0)) X.
 Proof.
@@ -38,13 +35,7 @@ Proof. unfold max_matching. rewrite gen_posgraph_net. destruct (ff_loop _ _ _ _)
 Lemma gen_bvn_z_eq X n M : gen_bvn_z X n M = zmin X n M. Proof. reflexivity. Qed.
 Lemma gen_bvn_sub_eq X n M z : gen_bvn_sub X n M z = sub_step X n M z. Proof. reflexivity. Qed.
 
-(* a whole run of the model stays in the domain (decidable, evaluated by the kernel) *)
-Fixpoint bvn_run_ok (fuel ffuel n : nat) (X : mat) : bool :=
-  match fuel with O => true | S f =>
-    nosmall_b X && (if forallb (forallb (fun x => Qeq_bool x 0)) X then true else
-      keys_ok X n && match max_matching ffuel (posgraph X n) (xs n) (ys n) with None => true | Some M =>
-        match zmin X n M with None => true | Some z => bvn_run_ok f ffuel n (sub_step X n M z) end end) end.
-
+(* a whole run of the model stays in the domain: BvNSnap.bvn_run_ok (decidable, evaluated by the kernel) *)
 Theorem gen_bvn_loop_eq ffuel n : forall fuel X acc, bvn_run_ok fuel ffuel n X = true ->
   gen_bvn_loop (max_matching ffuel) fuel n X acc = bvn_loop fuel ffuel n X acc.
 Proof.
